@@ -1,5 +1,7 @@
 package whispertool
 
+import "github.com/hnakamur/filebuffer"
+
 // C05 — Sync persistence: the file's bytes change only during Sync; after Sync the disk holds
 // exactly the handle's state; length and header never change.
 
@@ -75,4 +77,55 @@ func VerifC05_Sync() {
 		}
 	}
 	vrt.Assert(w2.Header().ArchiveInfoList().Equal(h.archiveInfoList), "C05.reopen same layout")
+}
+
+// VerifC05_Pages ("E-pages"): the same persistence obligations with the REAL filebuffer code
+// (page map, read/dirty bitsets, copying, dirty-range flushing) executed from SSA on pages of
+// 16, 20 or 32 bytes, so that 12-byte slots straddle page boundaries and the last page is
+// short; only the preadv/pwritev system calls are modelled.  It checks that the dependency's
+// real ReadAt/WriteAt/Flush refine the flat contract the other harnesses assume.
+func VerifC05_Pages() {
+	h := vrtChooseHeaderFrom([]string{"1s:3s,3s:9s", "5s:15s"}, Sum, 0.5)
+	now := vrtInstant(h, "now")
+	vrtAssumeClock(h, now)
+	img, pre := vrtInvImage(h, "s", now)
+	path := vrt.TempFile("c05p.wsp", img)
+	w, err := Open(path)
+	vrt.Assume(err == nil)
+	ps := []int64{16, 20, 32}[vrt.Choose("pageSize", 3)]
+	vrt.RealFileBuffer()
+	w.pageSize = ps
+	w.fileBuf = filebuffer.New(w.file, int64(len(img)), ps)
+	vrt.Reach("pre")
+	// reads through real pages see exactly the file
+	first := vrtRawSlots(w, h)
+	for ai := range pre.t {
+		for k := range pre.t[ai] {
+			vrt.Assert(first.t[ai][k] == pre.t[ai][k], "C05.pages paged read returns the stored time")
+			vrt.Assert(vrt.SameBits(float64(first.v[ai][k]), float64(pre.v[ai][k])), "C05.pages paged read returns the stored value")
+		}
+	}
+	t := vrtInstant(h, "t")
+	vrtAssumeNear(h, now, t)
+	if w.UpdatePointForArchive(ArchiveIDBest, t, Value(vrt.F64("v")), now) != nil {
+		return
+	}
+	vrt.Reach("written")
+	live := vrtRawSlots(w, h)
+	disk := vrt.ReadFile(path)
+	vrt.Assert(len(disk) == len(img), "C05.pages file length unchanged")
+	for i := range img {
+		vrt.Assert(disk[i] == img[i], "C05.pages dirty pages stay off disk until Sync")
+	}
+	vrt.Assert(w.Sync() == nil, "C05.pages sync succeeds")
+	vrt.Assert(w.Close() == nil, "C05.pages close")
+	w2, err := Open(path)
+	vrt.Assert(err == nil, "C05.pages reopen")
+	re := vrtRawSlots(w2, h)
+	for ai := range live.t {
+		for k := range live.t[ai] {
+			vrt.Assert(re.t[ai][k] == live.t[ai][k], "C05.pages flushed dirty pages carry the live state (time)")
+			vrt.Assert(vrt.SameBits(float64(re.v[ai][k]), float64(live.v[ai][k])), "C05.pages flushed dirty pages carry the live state (value)")
+		}
+	}
 }
